@@ -83,9 +83,9 @@ template<typename T_functor, typename... T_type>
 struct retype_functor : public adapts<T_functor>
 {
   template<typename... T_arg>
-  decltype(auto) operator()(T_arg... a)
+  decltype(auto) operator()(T_arg&&... a)
   {
-    return std::invoke(this->functor_, static_cast<T_type>(a)...);
+    return std::invoke(this->functor_, static_cast<T_type>(std::forward<T_arg>(a))...);
   }
 
   /** Constructs a retype_functor object that performs C-style casts on the parameters passed on to
